@@ -453,6 +453,18 @@ func init() {
 	}
 	ext["strings.TrimSpace"] = func(fr *frame, a []value) value { return strings.TrimSpace(cstr(fr, a[0])) }
 	ext["strings.Trim"] = func(fr *frame, a []value) value { return strings.Trim(cstr(fr, a[0]), cstr(fr, a[1])) }
+	ext["strings.TrimRight"] = func(fr *frame, a []value) value { return strings.TrimRight(cstr(fr, a[0]), cstr(fr, a[1])) }
+	ext["strings.TrimLeft"] = func(fr *frame, a []value) value { return strings.TrimLeft(cstr(fr, a[0]), cstr(fr, a[1])) }
+	ext["strings.ToUpper"] = func(fr *frame, a []value) value { return strings.ToUpper(cstr(fr, a[0])) }
+	ext["strings.Count"] = func(fr *frame, a []value) value { return strings.Count(cstr(fr, a[0]), cstr(fr, a[1])) }
+	ext["strings.LastIndex"] = func(fr *frame, a []value) value { return strings.LastIndex(cstr(fr, a[0]), cstr(fr, a[1])) }
+	ext["strings.ReplaceAll"] = func(fr *frame, a []value) value {
+		return strings.ReplaceAll(cstr(fr, a[0]), cstr(fr, a[1]), cstr(fr, a[2]))
+	}
+	ext["strings.SplitN"] = func(fr *frame, a []value) value {
+		return valStrs(strings.SplitN(cstr(fr, a[0]), cstr(fr, a[1]), int(asInt64(fr.concrete(a[2], "SplitN")))))
+	}
+	ext["strings.EqualFold"] = func(fr *frame, a []value) value { return strings.EqualFold(cstr(fr, a[0]), cstr(fr, a[1])) }
 	ext["strings.TrimSuffix"] = func(fr *frame, a []value) value {
 		return strings.TrimSuffix(cstr(fr, a[0]), cstr(fr, a[1]))
 	}
